@@ -88,7 +88,8 @@ impl Cache for MemoryStore {
                     if key_value.get().header.cas != record.header.cas {
                         Err(CacheError::KeyExists)
                     } else {
-                        record.header.cas += 1;
+                        // new tokens come from the one counter that also serves plain sets
+                        record.header.cas = self.get_cas_id();
                         record.header.timestamp = self.timer.timestamp();
                         let cas = record.header.cas;
                         key_value.insert(record);
